@@ -2,7 +2,7 @@
    non-trivial history (a spend found by a historical rescan, then reorged
    out, then re-included at tip and notified). *)
 From Coq Require Import List NArith Lia.
-From LV Require Import Notifier.Model Notifier.Spec Notifier.Proofs.
+From LV Require Import Notifier.Model Notifier.Spec Notifier.Proofs Notifier.ConfMain.
 Import ListNotations.
 Local Open Scope N_scope.
 
@@ -47,4 +47,39 @@ Proof.
   - reflexivity.
   - simpl. repeat split; try discriminate; lia.
   - reflexivity.
+Qed.
+
+(* confirmation side: register (valid hint), the rescan finds the tx in block
+   (2, 2), that block and the one above are reorged out, the tx is re-included
+   in the new block (2, 22) and the client (1 confirmation) is notified again:
+   it has been told Confirmed(2,2), NegativeConf, Confirmed(2,22).  All
+   environment obligations of the C14 confirmation theorems hold along the way. *)
+Definition ex_cchain : list (N * (N * bool)) := [(3, (3, false)); (2, (2, true)); (1, (1, false))].
+Definition ex_cops : list cop :=
+  [CReg 1 1 1; CUpd (Some (2, 2)); CDisconnect 3; CDisconnect 2; CConnect 2 22 true; CNotify].
+
+Example ex_cstart_ok : cstart_ok ex_cchain 3 144 None.
+Proof.
+  unfold cstart_ok, ex_cchain. simpl. repeat split; try lia; try discriminate; auto.
+  all: try (intros; discriminate). all: try (intros; lia).
+Qed.
+
+Example ex_conf_reach :
+  exists w, creach (cinit ex_cchain 3 144 None) w /\
+    sel 1 (cw_log w) = [EUpd 0 2; EConf 2 2; ENeg 2; EUpd 0 2; EConf 2 22] /\
+    clstate 1 (cw_log w) = Some (Some (2, 22)) /\ cpos (cw_chain w) = Some (2, 22).
+Proof.
+  assert (R : exists w, cvrun (cinit ex_cchain 3 144 None) ex_cops w /\
+    sel 1 (cw_log w) = [EUpd 0 2; EConf 2 2; ENeg 2; EUpd 0 2; EConf 2 22] /\
+    clstate 1 (cw_log w) = Some (Some (2, 22)) /\ cpos (cw_chain w) = Some (2, 22)).
+  { eexists. split.
+    { unfold ex_cops.
+      split; [simpl; intros h b Hp; inversion Hp; subst; lia
+             |eexists; split; [vm_compute; reflexivity|]].
+      split; [simpl; split; [reflexivity|eexists; split; [reflexivity|discriminate]]
+             |eexists; split; [vm_compute; reflexivity|]].
+      vstep. vstep. vstep. vstep. simpl. reflexivity. }
+    vm_compute. repeat split; reflexivity. }
+  destruct R as [w [R H]]. exists w. split; [|exact H].
+  eapply cvrun_reach; [apply creach_init|exact R].
 Qed.
